@@ -101,6 +101,11 @@ func (p *Parser) validateUpdateRequest(update *model.UpdateRequest) error {
 		return errors.New("missing did suffix")
 	}
 
+	// the batch file reader refuses longer suffixes: whatever is accepted here must be readable from the batch files
+	if len(update.DidSuffix) > int(p.MaxOperationHashLength) {
+		return fmt.Errorf("did suffix length[%d] exceeds maximum hash length[%d]", len(update.DidSuffix), p.MaxOperationHashLength)
+	}
+
 	if update.SignedData == "" {
 		return errors.New("missing signed data")
 	}
